@@ -6,6 +6,7 @@
 mod srcs;
 mod c01;
 mod c02;
+mod c03;
 mod gen;
 mod util;
 
@@ -28,6 +29,7 @@ fn main() {
   match prop {
     "C01" => c01::run(&mut sink, &mut rng, thorough),
     "C02" => c02::run(&mut sink, &mut rng, thorough),
+    "C03" => c03::run(&mut sink, &mut rng, thorough),
     _ => {
       eprintln!("unknown property {}", prop);
       std::process::exit(2);
